@@ -271,6 +271,22 @@ def prop_c08(k, d):
         return f"FAIL unwrap of the wrapper's own output raises {type(e).__name__}: {e}"
     if back != p:
         return f"FAIL unwrap returns {back.hex()} instead of the payload"
+    # the same long-lived encryptor and one long-lived decryptor, several frames: every call starts from the zero IV
+    dec = AesEncryptorMixin(key)
+    for n, q in enumerate((p, p[::-1], p[:len(p) // 2], p)):
+        try:
+            ct2 = enc.encrypt(q)
+        except Exception as e:
+            return f"FAIL call {n + 2} on the same encryptor raises {type(e).__name__}: {e}"
+        bad = frame_check(key, q, ct2)
+        if bad:
+            return f"FAIL frame of call {n + 2} on the same encryptor object: " + bad
+        try:
+            back = dec.decrypt(ct2)
+        except Exception as e:
+            return f"FAIL call {n + 1} on the same decryptor object raises {type(e).__name__}: {e}"
+        if back != q:
+            return f"FAIL call {n + 1} on the same decryptor object returns {back.hex()} instead of the payload"
     # under another key: must be an error (holds up to 2^-24; search-only clause)
     other = bytes([key[0] ^ 1]) + key[1:]
     try:
@@ -306,6 +322,19 @@ def prop_c08ck(k, ck, pos, d):
     back = SoftwareCustKeyEncryptor(key, c, pos).decrypt(ct)
     if back != p[:pos] + bytes(10) + p[pos + 10:]:
         return f"FAIL unwrap returns {back.hex()} (slot not blanked or payload changed)"
+    # the same objects used again
+    d2 = SoftwareCustKeyEncryptor(key, c, pos)
+    for n in range(3):
+        q = p[:pos] + bytes(10) + bytes((b + n) & 0xFF for b in p[pos + 10:])
+        ct2 = e.encrypt(q)
+        fr2 = refaes.cbc_decrypt(key, bytes(16), ct2)
+        if fr2[0:1] != b"B" or fr2[len(fr2) - 2 - len(q):-2] != q[:pos] + c + q[pos + 10:]:
+            return f"FAIL call {n + 2} on the same customer-key encryptor: frame does not hold the payload with the key in its slot"
+        try:
+            if d2.decrypt(ct2) != q:
+                return f"FAIL call {n + 1} on the same customer-key decryptor returns a different payload"
+        except Exception as ex:
+            return f"FAIL call {n + 1} on the same customer-key decryptor raises {type(ex).__name__}: {ex}"
     other = bytes([c[0] ^ 0x55]) + c[1:]
     try:
         SoftwareCustKeyEncryptor(key, other, pos).decrypt(ct)
@@ -323,6 +352,17 @@ def prop_csc(c):
     ct = e.encrypt(b"0123456789abcdef\x05")
     if frame_check(want, b"0123456789abcdef\x05", ct):
         return "FAIL security-code container is not keyed with SHA-256(code)[:16]: " + frame_check(want, b"0123456789abcdef\x05", ct)
+    d = ConfigSecurityCodeEncryptor(code)
+    for n, q in enumerate((b"second frame of the same object", b"", b"0123456789abcdef\x05")):
+        ct2 = e.encrypt(q)
+        bad = frame_check(want, q, ct2)
+        if bad:
+            return f"FAIL call {n + 2} on the same security-code encryptor: " + bad
+        try:
+            if d.decrypt(ct2) != q:
+                return f"FAIL call {n + 1} on the same security-code decryptor returns a different payload"
+        except Exception as ex:
+            return f"FAIL call {n + 1} on the same security-code decryptor raises {type(ex).__name__}: {ex}"
     return "ok"
 
 
@@ -703,18 +743,28 @@ def prop_c07unknown(k, bs, es, ephs, ephs2, keep):
     blocks = list(f0.auth_blocks.values())
     keep = int(keep) % len(blocks)
     dec = _matching_decryptor(blocks[keep], wencs)
-    f = Bec2File.read_file(io.StringIO(b3.to_text(a)), [dec], True)
-    with Oracle(parse_nats(ephs2)):
-        b = f.to_binary([dec])
-    ta, _ = _header_tlvs(a)
-    tb, _ = _header_tlvs(b)
-    if len(ta) != len(tb):
-        return "FAIL number of header blocks changed on re-writing"
-    for i, (x, y) in enumerate(zip(ta, tb)):
-        if i != keep and x != y:
-            return f"FAIL unopened block {i} (tag {x[0]}) changed on re-writing"
-        if i == keep and x[0] != y[0]:
-            return f"FAIL opened block {i} moved"
+    # second reading list: the decryptor of one block, followed by the writer's encrypt-only encryptors (public ECC keys):
+    # they match other blocks but cannot open them, so those blocks still have no decryptor
+    pubonly = [e if type(e) is EccEncryptor else EccEncryptor(e.key_selector, e.public_key)
+               for e in wencs if isinstance(e, EccEncryptor) and e is not dec]
+    for rlist, what in (([dec], "one decryptor"), ([dec] + pubonly, "one decryptor + the writer's public-key encryptors")):
+        try:
+            f = Bec2File.read_file(io.StringIO(b3.to_text(a)), list(rlist), True)
+        except Exception as e:
+            return f"FAIL reading with {what} raises {type(e).__name__}: {e}"
+        with Oracle(parse_nats(ephs2)):
+            b = f.to_binary([dec])
+        ta, _ = _header_tlvs(a)
+        tb, _ = _header_tlvs(b)
+        if len(ta) != len(tb):
+            return f"FAIL number of header blocks changed on re-writing ({what})"
+        for i, (x, y) in enumerate(zip(ta, tb)):
+            if i != keep and x != y:
+                return f"FAIL unopened block {i} (tag {x[0]}) changed on re-writing ({what})"
+            if i == keep and x[0] != y[0]:
+                return f"FAIL opened block {i} moved ({what})"
+        if f.session_key != key:
+            return f"FAIL the file object read with {what} carries session key {f.session_key.hex()} instead of {key.hex()}"
     # the rewritten file still has ONE session key: the kept blocks and the re-packed block wrap the same key,
     # and it is the key of the original file
     if f.session_key != key:
